@@ -21,6 +21,7 @@ type GenState struct {
 	t0      int64
 	pending int // remaining `next` lines of a burst
 	burstDt int64
+	quiesce int // C12: remaining steps of the drive towards a state whose plain export is accepted
 }
 
 var (
@@ -97,7 +98,8 @@ func (r *R) ResetLine(g *hx.Rng) string {
 	}
 	return "service reset " + hx.KV("h", h, "t", t, "base", "stake", "denoms", "stake,dbb,dcc", "restricted", restricted,
 		"maxto", g.Range(3, 30), "mdm", g.Range(1, 20), "mindep", mindep, "tax", tax, "slash", slash,
-		"cr", g.Range(1, 100), "atl", g.Range(1, 100), "rates", hx.Dash(strings.Join(rates, ",")), "fund", strings.Join(fund, ","))
+		"cr", g.Range(1, 100), "atl", g.Range(1, 100), "rates", hx.Dash(strings.Join(rates, ",")), "fund", strings.Join(fund, ","),
+		"aord", r.AddrOrder())
 }
 
 type gBind struct {
@@ -264,18 +266,40 @@ func (r *R) Gen(ctx sdk.Context, g *hx.Rng) string {
 		return "service next " + hx.KV("dt", r.G.burstDt)
 	}
 	defs, binds, ctxs, act, resps := r.snapshot(ctx)
-	for _, a := range act {
-		if len(r.G.seenReq) < 200 {
-			found := false
-			for _, s := range r.G.seenReq {
-				if s == a.id {
-					found = true
-					break
-				}
+	if r.Genesis && r.G.quiesce > 0 {
+		// C12: drive towards a state the plain export accepts (every context paused, its batch completed):
+		// pause what is running and repeated, let blocks pass until one-shot contexts and open batches are gone
+		r.G.quiesce--
+		live := false
+		for _, c := range ctxs {
+			if c.c.Repeated && c.c.State == types.RUNNING {
+				return "service pause " + hx.KV("consumer", c.consumer, "ctx", c.id)
 			}
-			if !found {
-				r.G.seenReq = append(r.G.seenReq, a.id)
+			if c.c.State != types.PAUSED || c.c.BatchState != types.BATCHCOMPLETED {
+				live = true
 			}
+		}
+		if live && r.G.quiesce > 0 {
+			return "service next " + hx.KV("dt", 5)
+		}
+		r.G.quiesce = 0
+		if g.Chance(1, 4) {
+			return "service export"
+		}
+		return "service reimport"
+	}
+	if r.Genesis && g.Chance(1, 14) {
+		// C12: the genesis round trip, as-is and after the module's prepare-for-zero-height step
+		switch g.Pick(2, 3, 3, 2) {
+		case 0:
+			return "service export"
+		case 1:
+			return "service reimport"
+		case 2:
+			return "service prep_reimport"
+		default:
+			r.G.quiesce = 45
+			return "service export"
 		}
 	}
 	now := ctx.BlockTime().Unix()
